@@ -147,6 +147,81 @@ def gen_ag(rng, *, n_nts=(1, 3), max_rules=2, max_nodes=3, max_edges=3, n_terms=
     raise RuntimeError('gen_ag: could not satisfy value cap')
 
 
+def is_j_clean(ag) -> bool:
+    """no rule has an edge-less node, an edge sharing no node with the other edges (rules with >= 2 edges),
+    or a repeated attachment: the rule shapes outside the recorded j_precompute findings (generation aid;
+    the SPECIFICATION computes the finding signatures it matches on, see Trace_Config!SigTags)"""
+    for r in ag['rules']:
+        used = set()
+        for e in r['edges']:
+            if len(set(e['att'])) != len(e['att']):
+                return False
+            used |= set(e['att'])
+        if used != set(range(1, len(r['nodes']) + 1)):
+            return False
+        if len(r['edges']) >= 2:
+            for k, e in enumerate(r['edges']):
+                others = set().union(*[set(f['att']) for m, f in enumerate(r['edges']) if m != k])
+                if not (set(e['att']) & others):
+                    return False
+    return True
+
+
+def gen_ag_j_clean(rng):
+    """non-recursive grammars on which j_precompute has no recorded defect, built around UNIT RULES whose single
+    edge has internal nodes or a permuted attachment (X(a) -> Y(a,c); X(a,b) -> f(b,a); X(a) -> f(c,a)), all node
+    labels with the same domain size so that a transposed Jacobian block stays shape-correct"""
+    k = rng.choice([2, 2, 3])
+    nls = {'T': k}
+    ax = rng.choice([1, 2])                     # arity of X
+    ay = rng.choice([2, 3]) if ax == 1 else rng.choice([2, 3])
+    as_ = rng.choice([0, 0, 1])
+    els = {'S': {'t': False, 'type': ['T'] * as_}, 'X': {'t': False, 'type': ['T'] * ax}, 'Y': {'t': False, 'type': ['T'] * ay},
+           'f': {'t': True, 'type': ['T', 'T']}, 'g': {'t': True, 'type': ['T']}, 'h': {'t': True, 'type': ['T'] * ay}}
+    rules = []
+    # S -> X(...) g(.) : all nodes used, edges share a node
+    ns = max(as_, ax)
+    att = list(range(1, ax + 1))
+    rng.shuffle(att)
+    rules.append({'lhs': 'S', 'nodes': ['T'] * ns, 'edges': [{'lab': 'X', 'att': att}, {'lab': 'g', 'att': [att[0]]}], 'ext': list(range(1, as_ + 1))})
+    if as_ == 1 and rng.random() < 0.5:
+        # a unit rule for the start symbol itself, internal node included
+        rules.append({'lhs': 'S', 'nodes': ['T', 'T'], 'edges': [{'lab': 'f', 'att': rng.choice([[1, 2], [2, 1]])}], 'ext': [1]})
+    # X(ext) -> Y(perm of ext + internal nodes): the unit rule
+    ny = ay
+    nodes = ['T'] * max(ax, ny)
+    ext = list(range(1, ax + 1))
+    yatt = list(range(1, ny + 1)) if ny >= ax else list(range(1, ax + 1))[:ny]
+    rng.shuffle(yatt)
+    if set(ext) <= set(yatt):
+        rules.append({'lhs': 'X', 'nodes': nodes[:max(ax, ny)], 'edges': [{'lab': 'Y', 'att': yatt}], 'ext': ext})
+    # X(ext) -> f(..) with an internal node or swapped order
+    if ax == 1:
+        rules.append({'lhs': 'X', 'nodes': ['T', 'T'], 'edges': [{'lab': 'f', 'att': rng.choice([[1, 2], [2, 1]])}], 'ext': [1]})
+    else:
+        rules.append({'lhs': 'X', 'nodes': ['T', 'T'], 'edges': [{'lab': 'f', 'att': rng.choice([[2, 1], [1, 2]])}], 'ext': [1, 2]})
+    # Y: a unit rule over h with a permuted attachment, and a two-edge rule
+    hatt = list(range(1, ay + 1))
+    rng.shuffle(hatt)
+    rules.append({'lhs': 'Y', 'nodes': ['T'] * ay, 'edges': [{'lab': 'h', 'att': hatt}], 'ext': list(range(1, ay + 1))})
+    if rng.random() < 0.6:
+        rules.append({'lhs': 'Y', 'nodes': ['T'] * ay, 'edges': [{'lab': 'f', 'att': [1, 2]}] + ([{'lab': 'f', 'att': [2, 3]}] if ay == 3 else [{'lab': 'g', 'att': [2]}]),
+                      'ext': list(range(1, ay + 1))})
+    rng.shuffle(rules)
+    w, wmp = {}, {}
+    for t in ('f', 'g', 'h'):
+        n = k ** len(els[t]['type'])
+        w[t] = [rng.choice([0, 1, 1, 2, 3]) for _ in range(n)]
+        wmp[t] = [rng.randint(-3, 3) for _ in range(n)]
+    elorder = ['S', 'X', 'Y', 'f', 'g', 'h']
+    rng.shuffle(elorder)
+    ag = {'nls': nls, 'els': els, 'elorder': elorder, 'start': 'S', 'rules': rules, 'w': w, 'wmp': wmp}
+    assert is_j_clean(ag), ag
+    if nat_bound(ag) > 20000:
+        return gen_ag_j_clean(rng)
+    return ag
+
+
 def nat_bound(ag) -> int:
     """Crude upper bound of any sum-product entry for non-recursive AGs (generation-time filter
     that keeps TLC's 32-bit integers safe; NOT an oracle)."""
